@@ -205,6 +205,17 @@ let () =
             let c = { softBreak = c0.softBreak; ignoreRaw = c0.ignoreRaw; filterOn = true; filterP = (fun _ -> false) } in
             Buffer.add_string buf (if chkRoots c (refsOfRoots roots) roots then "1" else "0")
           with Bad m -> Buffer.add_string buf ("BADDUMP " ^ m))
+       | "emphspec" ->
+         (* C11: the forest the delimiter-run procedure of the spec denotes (EmphSpec.specForest) for a line of the slice *)
+         let t = unhex f0 in
+         if okEmph t then List.iter (dump_i buf) (specForest t) else Buffer.add_string buf "skip"
+       | "entriesok" ->
+         (* C02: the hypothesis of InlineSpans.parseInlines_spans (lifted in SpanHyp.v), evaluated on the implementation's
+            pre-inline tree (dump of NextBlock's result) *)
+         (try
+            let (roots, _) = parse_roots (tokenize f0) [] in
+            Buffer.add_string buf (if entriesOKroots roots then "1" else "0")
+          with Bad m -> Buffer.add_string buf ("BADDUMP " ^ m))
        | "leafok" ->
          (* C07: the leaf hypothesis of C07_render_safeW, evaluated on the implementation's tree *)
          (try
